@@ -23,6 +23,20 @@ def run(tier, seed):
                            keep=lambda p: (not p["chg"]) and p["op"]["op"] not in ("Views", "HandleIfs", "Validate"),
                            workers=8)
     tc.run_and_validate(rep, sscripts, "all failing calls in substrate models of the bound", flavour="substrate")
+    # histories the model's own behaviours do not contain: a removed service leaves its peer's port behind (a recorded
+    # finding of C08), so peering the re-created service is refused at the SECOND port - after the first was made
+    N = lambda n: {"op": "AddNode", "name": n, "site": "S1", "ntype": "VM", "rp": {}}
+    S = lambda n, t: {"op": "AddService", "name": n, "nstype": t, "ifs": [], "site": "", "rp": {}}
+    P = lambda a, b: {"op": "Peer", "a": "svc:" + a, "b": "svc:" + b}
+    hist = []
+    for t1, t2 in (("L2STS", "L2Bridge"), ("FABNetv4", "FABNetv4"), ("L2Bridge", "L2PTP")):
+        base = [N("n1"), S("s1", t1), S("s2", t2), P("s1", "s2")]
+        for gone, other in (("s1", "s2"), ("s2", "s1")):
+            tg = t1 if gone == "s1" else t2
+            hist.append(base + [{"op": "RemoveService", "name": gone}, S(gone, tg), P(gone, other), {"op": "Views"}])
+            hist.append(base + [{"op": "RemoveService", "name": gone}, S(gone, tg), P(other, gone), {"op": "Views"}])
+            hist.append(base + [{"op": "Unpeer", "a": "svc:" + gone, "b": "svc:" + other}, P(gone, other), P(gone, other), P(other, gone)])
+    tc.run_and_validate(rep, hist, "peering again after the peer service was removed and re-created / un-peered")
     rng = random.Random(seed)
     gen = tc.RandomTopoOps(rng, invalid_prob=0.5)
     rs = [gen.script(45) for _ in range(100 if quick else 1500)]
